@@ -272,7 +272,8 @@ def run_check(engine, prop, tier, root, n_runs=None):
             # finding is repaired: report it (chunk successors were run too)
             pass
         if len(samples) < 2 and r.get("trace") and r.get("ops", 0) > 0:
-            samples.append(_sample(r))
+            fn = getattr(engine, "sample", None)
+            samples.append(core.jsonable(fn(r)) if fn else _sample(r))
     replay = None
     if viols:
         first = min(viols, key=lambda r: r["idx"])
